@@ -23,6 +23,7 @@ const (
 	LCell LocKind = iota
 	LHeap
 	LElem
+	LFrozen // element of a frozen (never written, never escaping) global slice literal
 	LGlobal
 )
 
@@ -63,13 +64,13 @@ type Val struct {
 
 type State struct {
 	lazyAlloc string    // non-empty: an allocating call happened; heaps first touched later get a fresh version framed below this bound
-	sym     *symHeaps // non-nil: heaps are bound variables (definition of a recursive spec function)
-	cells   map[*cellKey]string
-	heaps   map[string]string
-	globals map[*ssa.Global]string
-	alloc   string
-	pc      string
-	held    map[string]int
+	sym       *symHeaps // non-nil: heaps are bound variables (definition of a recursive spec function)
+	cells     map[*cellKey]string
+	heaps     map[string]string
+	globals   map[*ssa.Global]string
+	alloc     string
+	pc        string
+	held      map[string]int
 }
 
 func (s *State) clone() *State {
@@ -92,22 +93,26 @@ func (s *State) clone() *State {
 
 // Unit is one function verified against its contract.
 type Unit struct {
-	ctx      *Ctx
-	em       *Emitter
-	fn       *ssa.Function
-	con      *Contract
-	heapTy   map[string]types.Type
-	cellN    int
-	obSeen   map[string]int
-	entry    *State
-	params   map[string]Val
-	errs     []string // out-of-subset messages
-	arith    bool
-	nowrap   bool
-	abstract bool // tolerate unsupported instructions by havoc (safety sweep mode)
-	depthMax int
-	lockLog  []string
-	extUsed  map[string]bool
+	ctx          *Ctx
+	em           *Emitter
+	fn           *ssa.Function
+	con          *Contract
+	heapTy       map[string]types.Type
+	frozenDecl   map[string]bool
+	topBinds     []Val
+	curFrame     *Frame
+	copyRefs     map[string]string // objects modelling read-only copies of embedded arrays
+	cellN        int
+	obSeen       map[string]int
+	entry        *State
+	params       map[string]Val
+	errs         []string // out-of-subset messages
+	arith        bool
+	nowrap       bool
+	abstract     bool // tolerate unsupported instructions by havoc (safety sweep mode)
+	depthMax     int
+	lockLog      []string
+	extUsed      map[string]bool
 	staticCells  map[*cellKey]Val
 	pendingBinds []Val
 	qn           int
@@ -125,19 +130,19 @@ type Unit struct {
 }
 
 type Frame struct {
-	u        *Unit
-	fn       *ssa.Function
-	vals     map[ssa.Value]Val
-	cells    map[*ssa.Alloc]*cellKey
-	depth    int
-	defers   []*ssa.Defer
-	prefix   string // obligation name prefix for inlined frames
-	entry    *State
-	paramV   map[string]Val
-	resNames []string
-	pure     bool // spec/inlined-in-spec context: no obligations
-	edgeGuard map[[2]int]string
-	loopLimit map[int]token.Pos
+	u          *Unit
+	fn         *ssa.Function
+	vals       map[ssa.Value]Val
+	cells      map[*ssa.Alloc]*cellKey
+	depth      int
+	defers     []*ssa.Defer
+	prefix     string // obligation name prefix for inlined frames
+	entry      *State
+	paramV     map[string]Val
+	resNames   []string
+	pure       bool // spec/inlined-in-spec context: no obligations
+	edgeGuard  map[[2]int]string
+	loopLimit  map[int]token.Pos
 	heapLocals map[string]Val // named locals that live on the heap (address taken)
 }
 
@@ -235,6 +240,37 @@ func (u *Unit) heapGet(st *State, name string, t types.Type) string {
 	return v
 }
 
+// noCopyWrite: a write into backing array ref must not hit an object that models a
+// read-only copy of an embedded array (the write would be lost in the model).
+func (u *Unit) noCopyWrite(st *State, ref string) {
+	if len(u.copyRefs) == 0 {
+		return
+	}
+	var ne []string
+	for _, r := range sortedKeys(u.copyRefs) {
+		ne = append(ne, fmt.Sprintf("(=> %s (not (= %s %s)))", u.copyRefs[r], ref, r))
+	}
+	u.oblige(u.curFrame, st, "copy-write", "write through slice of embedded array", and(ne...), token.NoPos)
+}
+
+// frozenFn declares (once) the content function of a frozen global slice literal.
+func (u *Unit) frozenFn(g *ssa.Global) string {
+	n := "fz_" + sanitize(g.Pkg.Pkg.Name()+"_"+g.Name())
+	if u.frozenDecl == nil {
+		u.frozenDecl = map[string]bool{}
+	}
+	if !u.frozenDecl[n] {
+		u.frozenDecl[n] = true
+		cs, _ := u.ctx.frozenGlobal(g)
+		body := "0"
+		for i := len(cs) - 1; i >= 0; i-- {
+			body = fmt.Sprintf("(ite (= i %d) %s %s)", i, cs[i], body)
+		}
+		u.em.pre(fmt.Sprintf("(define-fun %s ((i Int)) Int %s)", n, body))
+	}
+	return n
+}
+
 func (u *Unit) heapSet(st *State, name string, t types.Type, term string) {
 	u.heapTy[name] = t
 	st.heaps[name] = u.em.define(name, u.heapSortU(name, t), term)
@@ -249,6 +285,9 @@ func (u *Unit) globalGet(st *State, g *ssa.Global) string {
 	u.em.pre(fmt.Sprintf("(declare-const %s %s)", n, u.em.sortOf(ty)))
 	if inv := u.valInvDeep(n, ty, &State{alloc: "alloc_init"}); inv != "" && inv != "true" {
 		u.em.pre("(assert " + inv + ")")
+	}
+	if cs, ok := u.ctx.frozenGlobal(g); ok {
+		u.em.pre(fmt.Sprintf("(assert (and (= (s_len %s) %d) (= (s_cap %s) %d) (= (s_off %s) 0) (> (s_base %s) 0)))", n, len(cs), n, len(cs), n, n))
 	}
 	if u.ctx.isSentinelError(g) {
 		u.em.pre(fmt.Sprintf("(assert (> %s 0))", n))
@@ -340,6 +379,11 @@ func (u *Unit) rootTerm(st *State, l *Loc) string {
 		}
 		return v
 	case LHeap:
+		if arr, ok := l.RootTy.Underlying().(*types.Array); ok {
+			// array objects live in the backing-array heap of their element type
+			h := u.heapGet(st, u.em.elemHeapName(arr.Elem()), arr.Elem())
+			return fmt.Sprintf("(select %s %s)", h, l.Ref)
+		}
 		h := u.heapGet(st, u.em.heapName(l.RootTy), l.RootTy)
 		return fmt.Sprintf("(select %s %s)", h, l.Ref)
 	case LElem:
@@ -347,6 +391,8 @@ func (u *Unit) rootTerm(st *State, l *Loc) string {
 		return fmt.Sprintf("(select (select %s %s) %s)", h, l.Ref, l.Idx)
 	case LGlobal:
 		return u.globalGet(st, l.Global)
+	case LFrozen:
+		return fmt.Sprintf("(%s %s)", u.frozenFn(l.Global), l.Idx)
 	}
 	panic("rootTerm")
 }
@@ -356,10 +402,17 @@ func (u *Unit) setRoot(st *State, l *Loc, v string) {
 	case LCell:
 		st.cells[l.Cell] = u.em.define(l.Cell.name, u.em.sortOf(l.Cell.ty), v)
 	case LHeap:
+		if arr, ok := l.RootTy.Underlying().(*types.Array); ok {
+			n := u.em.elemHeapName(arr.Elem())
+			h := u.heapGet(st, n, arr.Elem())
+			u.heapSet(st, n, arr.Elem(), fmt.Sprintf("(store %s %s %s)", h, l.Ref, v))
+			return
+		}
 		n := u.em.heapName(l.RootTy)
 		h := u.heapGet(st, n, l.RootTy)
 		u.heapSet(st, n, l.RootTy, fmt.Sprintf("(store %s %s %s)", h, l.Ref, v))
 	case LElem:
+		u.noCopyWrite(st, l.Ref)
 		n := u.em.elemHeapName(l.RootTy)
 		h := u.heapGet(st, n, l.RootTy)
 		u.heapSet(st, n, l.RootTy, fmt.Sprintf("(store %s %s (store (select %s %s) %s %s))", h, l.Ref, h, l.Ref, l.Idx, v))
@@ -509,6 +562,12 @@ func (u *Unit) runFunc(fn *ssa.Function, args []Val, st *State, parent *Frame, p
 	for i, fv := range fn.FreeVars {
 		if i < len(binds) {
 			f.vals[fv] = binds[i]
+			if top && binds[i].T != "" {
+				if f.heapLocals == nil {
+					f.heapLocals = map[string]Val{}
+				}
+				f.heapLocals[fv.Name()] = binds[i]
+			}
 		}
 	}
 	f.edgeGuard = map[[2]int]string{}
@@ -570,9 +629,9 @@ func (u *Unit) runFunc(fn *ssa.Function, args []Val, st *State, parent *Frame, p
 	inPred[0] = []int{-1}
 	var rets []retInfo
 	type loopCtx struct {
-		head    *State
-		variant string
-		ord     int
+		head       *State
+		variant    string
+		ord        int
 		frameHeaps []string
 	}
 	loops := map[int]*loopCtx{}
@@ -1176,6 +1235,7 @@ func realLit(v constant.Value) string {
 // instructions
 
 func (u *Unit) instr(f *Frame, st *State, ins ssa.Instruction) {
+	u.curFrame = f
 	switch x := ins.(type) {
 	case *ssa.DebugRef:
 	case *ssa.Alloc:
@@ -1279,6 +1339,26 @@ func (u *Unit) instr(f *Frame, st *State, ins ssa.Instruction) {
 		u.errf("Index on %s", x.X.Type())
 	case *ssa.Slice:
 		u.sliceOp(f, st, x)
+	case *ssa.SliceToArrayPointer:
+		// supported when the pointer is only dereferenced for reading (array conversion):
+		// a fresh array object holding a copy of the slice's first n elements
+		for _, r := range *x.Referrers() {
+			if l, ok := r.(*ssa.UnOp); !ok || l.Op != token.MUL {
+				if _, dbg := r.(*ssa.DebugRef); !dbg {
+					u.errf("slice-to-array-pointer conversion that is not immediately dereferenced")
+				}
+			}
+		}
+		sv := u.value(f, st, x.X)
+		arr := x.Type().Underlying().(*types.Pointer).Elem().Underlying().(*types.Array)
+		u.oblige(f, st, "slice", u.exprText(x.Pos(), "array conversion"), fmt.Sprintf("(>= (s_len %s) %d)", sv.T, arr.Len()), x.Pos())
+		hn := u.em.elemHeapName(arr.Elem())
+		h := u.heapGet(st, hn, arr.Elem())
+		cp := u.em.fresh("arrcopy", fmt.Sprintf("(Array Int %s)", u.em.sortOf(arr.Elem())))
+		u.em.assert(fmt.Sprintf("(forall ((x Int)) (! (=> (and (<= 0 x) (< x %d)) (= (select %s x) (select (select %s (s_base %s)) (+ (s_off %s) x)))) :pattern ((select %s x))))", arr.Len(), cp, h, sv.T, sv.T, cp))
+		r := u.newRef(st)
+		u.heapSet(st, hn, arr.Elem(), fmt.Sprintf("(store %s %s %s)", h, r, cp))
+		f.vals[x] = Val{T: r, Ty: x.Type()}
 	case *ssa.MakeSlice:
 		ln := u.value(f, st, x.Len)
 		cp := u.value(f, st, x.Cap)
@@ -1287,7 +1367,7 @@ func (u *Unit) instr(f *Frame, st *State, ins ssa.Instruction) {
 		r := u.newRef(st)
 		n := u.em.elemHeapName(et)
 		h := u.heapGet(st, n, et)
-		u.heapSet(st, n, et, fmt.Sprintf("(store %s %s ((as const (Array Int %s)) %s))", h, r, u.em.sortOf(et), u.em.zeroOf(et)))
+		u.heapSet(st, n, et, fmt.Sprintf("(store %s %s %s)", h, r, u.em.constArray(u.em.sortOf(et), u.em.zeroOf(et))))
 		f.vals[x] = Val{T: u.em.define(x.Name(), "Slice", fmt.Sprintf("(mkSlice %s 0 %s %s)", r, ln.T, cp.T)), Ty: x.Type()}
 	case *ssa.MakeMap:
 		mt := x.Type().Underlying().(*types.Map)
@@ -1415,6 +1495,16 @@ func (u *Unit) unop(f *Frame, st *State, x *ssa.UnOp) {
 			u.assume(st, u.valInv(t, ty, st))
 		}
 		f.vals[x] = Val{T: t, Ty: ty}
+		if g, ok := x.X.(*ssa.Global); ok {
+			if cs, ok := u.ctx.frozenGlobal(g); ok {
+				// contents of a frozen global slice are its literal in every heap
+				et := ty.Underlying().(*types.Slice).Elem()
+				h := u.heapGet(st, u.em.elemHeapName(et), et)
+				for i := range cs {
+					u.assume(st, fmt.Sprintf("(= (select (select %s (s_base %s)) %d) (%s %d))", h, t, i, u.frozenFn(g), i))
+				}
+			}
+		}
 	case token.SUB:
 		v := u.value(f, st, x.X)
 		t := fmt.Sprintf("(- %s)", v.T)
@@ -1466,6 +1556,15 @@ func (u *Unit) indexAddr(f *Frame, st *State, x *ssa.IndexAddr) {
 	txt := u.exprText(x.Pos(), "index")
 	switch t := x.X.Type().Underlying().(type) {
 	case *types.Slice:
+		if ld, ok := x.X.(*ssa.UnOp); ok && ld.Op == token.MUL {
+			if g, ok := ld.X.(*ssa.Global); ok {
+				if cs, ok := u.ctx.frozenGlobal(g); ok {
+					u.oblige(f, st, "index", txt, fmt.Sprintf("(and (<= 0 %s) (< %s %d))", i.T, i.T, len(cs)), x.Pos())
+					f.vals[x] = Val{Ty: x.Type(), Loc: &Loc{Kind: LFrozen, Global: g, RootTy: t.Elem(), Idx: i.T}}
+					return
+				}
+			}
+		}
 		u.oblige(f, st, "index", txt, fmt.Sprintf("(and (<= 0 %s) (< %s (s_len %s)))", i.T, i.T, base.T), x.Pos())
 		idx := fmt.Sprintf("(+ (s_off %s) %s)", base.T, i.T)
 		f.vals[x] = Val{Ty: x.Type(), Loc: &Loc{Kind: LElem, RootTy: t.Elem(), Ref: fmt.Sprintf("(s_base %s)", base.T), Idx: idx}}
@@ -1516,6 +1615,21 @@ func (u *Unit) sliceOp(f *Frame, st *State, x *ssa.Slice) {
 		hi := get(x.High, n)
 		mx := get(x.Max, n)
 		u.oblige(f, st, "slice", txt, fmt.Sprintf("(and (<= 0 %s) (<= %s %s) (<= %s %s) (<= %s %s))", lo, lo, hi, hi, mx, mx, n), x.Pos())
+		if base.T == "" && base.Loc != nil {
+			// array embedded in a struct (or cell): the slice is modelled as a read-only copy
+			// in a fresh object; writes through it are rejected (setRoot / copy)
+			cur := u.loadLoc(st, base.Loc)
+			hn := u.em.elemHeapName(arr.Elem())
+			h := u.heapGet(st, hn, arr.Elem())
+			rf := u.newRef(st)
+			u.heapSet(st, hn, arr.Elem(), fmt.Sprintf("(store %s %s %s)", h, rf, cur))
+			if u.copyRefs == nil {
+				u.copyRefs = map[string]string{}
+			}
+			u.copyRefs[rf] = st.pc
+			u.extDefault("slice of an array embedded in a struct is modelled as a read-only copy")
+			base = Val{T: rf, Ty: base.Ty}
+		}
 		if base.T == "" {
 			u.errf("slice of local array not supported")
 			f.vals[x] = u.freshVal(x.Name(), x.Type(), st)
